@@ -68,6 +68,7 @@ type caseT struct {
 type ctxKey string // the key type of the cases; a plain string with the same text is a different key
 
 const closeBound = 30 * time.Second
+const settleBound = 5 * time.Second
 
 var deltas = []time.Duration{40 * time.Millisecond, 400 * time.Millisecond, 3 * time.Second}
 
@@ -269,6 +270,9 @@ func (w *world) compare(si int, s *stepT, only map[int]bool) *mismatch {
 			if ch == nil {
 				return &mismatch{what: at(x) + ": Done() is nil, the specification says closed", firm: true}
 			}
+			if isClosed(ch) {
+				break
+			}
 			select {
 			case <-ch:
 			case <-time.After(closeBound):
@@ -326,8 +330,15 @@ func (w *world) compare(si int, s *stepT, only map[int]bool) *mismatch {
 			}
 		}
 		if n, ok := kidsOf(c); ok && n != o.Kids {
-			return &mismatch{what: fmt.Sprintf("%s: %d children registered with the context (cancelCtx.children), the specification says %d", at(x), n, o.Kids),
-				dev: "X02/registry-leak"}
+			// a timer goroutine closes Done first and leaves the parent's registry afterwards (CtxTreePre17: Rm follows
+			// IterDone): the registry is judged once it has settled, like Done within a bound
+			for t0 := time.Now(); n != o.Kids && time.Since(t0) < settleBound; n, _ = kidsOf(c) {
+				time.Sleep(time.Millisecond)
+			}
+			if n != o.Kids {
+				return &mismatch{what: fmt.Sprintf("%s: %d children registered with the context (cancelCtx.children) %v after the step, the specification says %d",
+					at(x), n, settleBound, o.Kids), dev: "X02/registry-leak", firm: n > o.Kids}
+			}
 		}
 	}
 	return nil
